@@ -1,9 +1,10 @@
 #!/bin/sh
-# Offline setup: regenerate Gen/, build every theorem module and the model driver, build the harness.
+# Offline setup: regenerate Gen/, build every claimed theorem module and the model driver, build the harness.
 set -e
 cd "$(dirname "$0")/.."
 export CARGO_NET_OFFLINE=true
 python3 tools/gen_lean.py
-(cd lean && lake build)
+MODS=$(ls tools/props.d/*.json | sed 's|.*/\(C[0-9]*\)\.json|Autd3.Props.\1|' | tr '\n' ' ')
+(cd lean && lake build $MODS autd3model)
 (cd harness && cargo build --release --offline)
 echo setup-done
